@@ -95,12 +95,18 @@ func (p *Provider) Run(ctx context.Context, deps core.ProviderDeps) (err error) 
 }
 
 func (p *Provider) runFullScan(ctx context.Context) error {
+	// With chosen cases, limit counts only ammo that passed the filter, as with preload.
+	filtered := len(p.Config.ChosenCases) > 0
+	sent := uint(0)
 	for {
 		if err := ctx.Err(); err != nil {
 			if !errors.Is(err, context.Canceled) {
 				err = xerrors.Errorf("error from context: %w", err)
 			}
 			return err
+		}
+		if filtered && p.Limit != 0 && sent >= p.Limit {
+			return nil
 		}
 		ammo, err := p.Decoder.Scan(ctx)
 		if err != nil {
@@ -121,6 +127,7 @@ func (p *Provider) runFullScan(ctx context.Context) error {
 			}
 			return err
 		case p.Sink <- ammo:
+			sent++
 		}
 	}
 }
